@@ -238,7 +238,7 @@ func dlApply(w *World, ev ssa.Instruction, key dlKey, state int, depth int, disa
 func ruleDeadlinePairing(w *World, r *Report, rule string) {
 	narm := 0
 	var fns []*ssa.Function
-	for fn := range allModuleFuncs(w, w.SSA()) {
+	for _, fn := range sortedModuleFuncs(w, w.SSA()) {
 		fns = append(fns, fn)
 	}
 	sort.Slice(fns, func(i, j int) bool { return fns[i].Pos() < fns[j].Pos() })
